@@ -450,6 +450,10 @@ def main(argv=None):
     print("%s %s: %d rule runs, %d obligations, %d discharged, %d known findings, %d violations (%.1fs)"
           % (prop, args.tier, sum(len(rs) for _, rs in all_results), tot_o, tot_d, len(known_hits),
              len(violations), wall))
+    for new_id, known in sorted((ctx.facts.get("_renames") or {}).items()):
+        print("NOTE: %s is analysed as %s (same file, same signature, same callees: recognised as a renamed function)" % (new_id, known))
+    for fid, order in sorted((ctx.facts.get("_reordered") or {}).items()):
+        print("NOTE: the parameters of %s are written in the order (%s); analysed in the order the rules know" % (fid, ", ".join(order)))
     for rule, why in undecided:
         print("ANCHOR-MISSING property=%s rule=%s: %s" % (prop, rule, why))
     if violations:
